@@ -1027,9 +1027,16 @@ static Token *include_file(Token *tok, char *path, Token *filename_tok, int next
   if (guard_name && hashmap_get(&macros, guard_name))
     return tok;
 
+  // A file that includes itself, directly or through other files, would
+  // be expanded without end.
+  int depth = filename_tok->file->include_depth + 1;
+  if (depth > 200)
+    error_tok(filename_tok, "#include nested depth %d exceeds maximum of 200", depth);
+
   Token *tok2 = tokenize_file(path);
   if (!tok2)
     error_tok(filename_tok, "%s: cannot open file: %s", path, strerror(errno));
+  tok2->file->include_depth = depth;
 
   // #include_next in this file continues the search behind the
   // directory it was found in, whatever is looked up in between.
